@@ -60,6 +60,18 @@ checks = {
    text="The real wallet (Create/Open/Start/SynchronizeRPC, notification loop, syncWithChain, rollback loop, rescan hand-over) is driven against a block-tree chain model through a fake chain.Interface; every sequence of up to 4 (thorough 5) evolution steps over extend (empty / paying the wallet / spending a wallet output / re-confirming reorged txs), disconnect, duplicate and stale disconnect notifications, restart, offline extension and offline reorgs of depth 1-2, in three notification orders, is executed; after every step SyncedTo must equal the model tip, BlockHash(h) the best-chain hash for every height in the window, and every transaction's block field must be the model's best-chain block.",
    note="Chains of height <= 5 (MaxReorgDepth 10000 is never reached, stale-height pruning not exercised); all notifications are sent sequentially by the harness; the wallet's own goroutines run free but are driven so that the pipeline is sequential (barrier + quiescence detection).",
    technique="bounded exhaustive enumeration of chain evolutions against the real wallet (stateless model checking) with a chain model as oracle"),
+ "C06": dict(engine="wsim", level=MC, ref="4/C06",
+   text="Real wallet states are built through wsim for every tuple of 1-2 coins (thorough: all pairs + triples) over {P2PKH, nested P2WPKH, P2WPKH, P2TR} x {account 0,1} x 11 statuses (unconfirmed, 1 conf, deep, coinbase immature/mature, spent by unconfirmed/confirmed tx, rolled back, user-locked, leased, lease expired); in every state every request over scope x account x minconf x amount x selection strategy (largest + every preference order) x every explicit input subset (and duplicated selections) x dry-run is issued through CreateSimpleTx, SendOutputs, SendOutputsWithInput, FundPsbt without and with pre-set inputs, plus all orderings of three successive sends; inputs are checked against an independently recomputed eligible set, explicit ineligible selections must be refused, later sends must not reuse inputs, every signed input is verified with the script engine under standard flags.",
+   note="Small scope (<=3 coins, fee rates 1000/3000 sat/kvB, no watch-only or imported accounts); a stricter-than-required wallet is not detected; the FundPsbt pre-set-input family is listed in known_findings.txt.",
+   technique="bounded exhaustive enumeration of wallet states x requests on the real wallet (stateless model checking) with an independent eligibility oracle and script verification"),
+ "C11": dict(engine="c11", level=MC, ref="4/C11",
+   text="Explicit-state BFS to fixpoint over the logical content of a real bdb database (nested map of buckets/keys/values/sequences over small alphabets): each transition is one whole transaction of kind Update/View/Batch/manual begin+commit/manual begin+rollback/read tx x a program of <=2 (thorough 3) operations (put, delete, get, nested bucket create/delete/open, sequences, ForEach, cursor walks in both directions, cursor delete) x outcome (nil, error, panic), or close+reopen; every read and every mutator error class is compared in lock-step with a nested-map model including own writes; after each transaction a fresh dump must equal the model (updated only on commit); the writer lock is probed after every failed transaction; whole commit histories are replayed without restores.",
+   note="Bounded alphabets (5 keys + empty key, 2 values, 2 bucket names, depth 2); cursor behaviour after a mid-walk mutation other than the documented cursor.Delete is not asserted; Batch timing is made immediate through bbolt's MaxBatchSize.",
+   technique="explicit-state model checking of the implementation against a reference model in lock-step (BFS with state hashing to fixpoint)"),
+ "C20": dict(engine="wsim", level=MC, ref="4/C20",
+   text="Every wallet history of the plan (1-2 confirmed coins, optional lease, S1 via SendOutputs or PublishTransaction, optional resync by restart or rescan, optional unconfirmed child S2, optional confirming block, optional final resync) is executed on the real wallet; every backend answer is a choice point enumerated exhaustively (accept, already in mempool, already known, already confirmed, each of the 39 other chain sentinel errors, an opaque error, NotifyReceived failure) for initial broadcasts and re-broadcasts. Oracle: an error result leaves balance for every minconf, the spendable set and the unmined set exactly as before the attempt; in-mempool stays recorded once; after every resync the backend was offered exactly the unconfirmed set, each once, parents first.",
+   note="Histories with at most two wallet sends and two coins; asynchronous rebroadcast is awaited by goroutine-state quiescence detection; already-known/confirmed answers only require success.",
+   technique="bounded exhaustive enumeration of wallet histories x environment answers on the real wallet (stateless model checking, deviation = backend answer)"),
 }
 pending_reason = "check not built yet in this session (planned, see DESIGN.md section 4)"
 def sh(c): return subprocess.run(c, shell=True, capture_output=True, text=True).stdout.strip()
